@@ -70,12 +70,20 @@ Fixpoint insert_sorted (x : list N) (l : list (list N)) : list (list N) :=
   end.
 Definition sort_paths (l : list (list N)) : list (list N) := fold_right insert_sorted [] l.
 
-(* FindWithPrefixAndSuffix: literal prefix and suffix that do not overlap, sorted *)
+(* no path separator in s *)
+Definition no_slash (s : list N) : bool := negb (existsb (fun c => c =? SLASH) s).
+
+(* FindWithPrefixAndSuffix reads ONE directory - the directory part of the prefix - and keeps the entries that are
+   not directories and whose names have the literal prefix and suffix, not overlapping; sorted.
+   On the flat file map these are the file paths with the prefix and the suffix and NO separator after the prefix:
+   a path with a separator there is a file in a sub-directory, which is not an entry of the directory read, and the
+   sub-directory itself is an entry that is skipped (it is not a file of the map either) *)
 Definition io_list (pre suf : list N) (st : io) : outcome (list (list N)) * io :=
   match sched_lookup (io_sched st) (io_n st) with
   | Some _ => (Err EIO, tick st (EvList pre suf false) (io_fs st))
   | None =>
-    let ms := filter (fun q => Nat.leb (length pre + length suf) (length q) && starts_with q pre && ends_with q suf)
+    let ms := filter (fun q => Nat.leb (length pre + length suf) (length q) && starts_with q pre && ends_with q suf
+                               && no_slash (skipn (length pre) q))
                      (map fst (io_fs st)) in
     (Ok (sort_paths ms), tick st (EvList pre suf true) (io_fs st))
   end.
